@@ -2,6 +2,7 @@
   S3 — `GInv`, part 6: leaving a guard wait (`guardWithdraw`, `guardWaitLeave`), the epilogues of the guard waits and of hold.
 -/
 import CimbaModel.Sim.S3GInvEx
+import CimbaModel.Sim.S3TInvRun
 
 namespace CimbaModel.Sim.S3
 open CimbaModel CimbaModel.Sim CimbaModel.Event CimbaModel.Generated CimbaModel.KPQ
@@ -315,5 +316,202 @@ theorem GInv.leaveGuard {w : World} (hp : GInv ex fr w) {p : Pid} {f : Frame} {g
       exact hq2 e he (Or.inl ⟨hea, hec⟩) hb
     · intro e he; rw [hevR] at he; exact hnt e he
     · intro e he _ _; rw [hevR] at he; exact he
+
+
+theorem kindMatch_cond_iff (p : Pid) (e : HTag) : kindMatch p aCond none e = true ↔ e.item.b = p + 1 ∧ e.item.a = aCond := by
+  unfold kindMatch; simp
+
+/-- after the epilogue of a guard wait other than `cond_wait`: the invariant holds again with the process not suspended -/
+theorem GInv.left_plain {w : World} (hp : GInv ex fr w) {p : Pid} {f : Frame} {g : Nat} (hx : ¬ ex p) (hfr : fr p = some f)
+    (hon : FrameOn w f g) (hnc : ∀ c, f ≠ .condWait c) (sig : Int)
+    (hq : sig = sigSuccess → (∀ e ∈ w.ev.pending, isGrant e → e.item.b ≠ p + 1) ∧ ¬ queued w g (p + 1)) :
+    GInv ex (setFrame fr p none) (guardWaitLeave (w.modProc p fun y => { y with blocked := none }) g p sig) := by
+  obtain ⟨h1, hl⟩ := hp.leaveGuard hx hfr hon sig hq
+  obtain ⟨_, _, _, _, hncond⟩ := hp.guardFrame_facts hx hfr hon
+  have hc : Clean (guardWaitLeave (w.modProc p fun y => { y with blocked := none }) g p sig) p := by
+    refine ⟨hl.aw, hl.nq, ?_, hl.nt⟩
+    intro e he hgr hb
+    rcases hgr with ⟨h1', h2'⟩ | h1'
+    · exact hl.nr e he h1' h2' hb
+    · exact hncond hnc e (hl.oc e he h1' hb) h1' hb
+  exact (h1.unexempt_clean hc).setFr_clean hc none
+
+/-- … and of `cond_wait`, which additionally withdraws a condition wake-up that is already pending -/
+theorem GInv.left_cond {w : World} (hp : GInv ex fr w) {p : Pid} {c g : Nat} (hx : ¬ ex p) (hfr : fr p = some (.condWait c))
+    (hon : w.conds[c]? = some g) (sig : Int)
+    (hq : sig = sigSuccess → (∀ e ∈ w.ev.pending, isGrant e → e.item.b ≠ p + 1) ∧ ¬ queued w g (p + 1)) :
+    GInv ex (setFrame fr p none)
+      (if sig ≠ sigSuccess then
+        (cancelKindFor (guardWaitLeave (w.modProc p fun y => { y with blocked := none }) g p sig) p aCond none).1
+       else guardWaitLeave (w.modProc p fun y => { y with blocked := none }) g p sig) := by
+  obtain ⟨h1, hl⟩ := hp.leaveGuard hx hfr (f := .condWait c) hon sig hq
+  generalize guardWaitLeave (w.modProc p fun y => { y with blocked := none }) g p sig = w1 at h1 hl
+  by_cases hs : sig ≠ sigSuccess
+  · rw [if_pos hs]
+    obtain ⟨hrel, hgone, _, _⟩ := cancelKindFor_spec w1 p aCond none h1.ei
+    have h2 := h1.cancelKindFor_fst p aCond none
+    have hc : Clean (cancelKindFor w1 p aCond none).1 p := by
+      have hev : ∀ e ∈ (cancelKindFor w1 p aCond none).1.ev.pending, e ∈ w1.ev.pending ∨ e.item.a = aEvent := by
+        intro e he
+        rcases hrel.pend e he with h | ⟨_, _, _, _, _, _, heq⟩
+        · exact Or.inl h
+        · right; rw [heq]; rfl
+      refine ⟨?_, ?_, ?_, ?_⟩
+      · unfold guardAw; rw [hrel.proc]; exact hl.aw
+      · intro g' hq'; exact hl.nq g' ((queued_congr hrel.guards g' _).1 hq')
+      · intro e he hgr hb
+        rcases hev e he with h | h
+        · rcases hgr with ⟨h1', h2'⟩ | h1'
+          · exact hl.nr e h h1' h2' hb
+          · have := hgone e he (EvInv.key_le h1.ei h)
+            rw [(kindMatch_cond_iff p e).2 ⟨hb, h1'⟩] at this; cases this
+        · rcases hgr with ⟨h1', _⟩ | h1' <;> rw [h] at h1' <;> exact absurd h1' (by decide)
+      · intro e he hea hec hb
+        rcases hev e he with h | h
+        · exact hl.nt e h hea hec hb
+        · rw [hea] at h; exact absurd h (by decide)
+    exact (h2.unexempt_clean hc).setFr_clean hc none
+  · rw [if_neg hs]
+    have hs' : sig = sigSuccess := Classical.byContradiction hs
+    obtain ⟨hq2, _⟩ := hq hs'
+    have hc : Clean w1 p := by
+      refine ⟨hl.aw, hl.nq, ?_, hl.nt⟩
+      intro e he hgr hb
+      rcases hgr with ⟨h1', h2'⟩ | h1'
+      · exact hl.nr e he h1' h2' hb
+      · exact hq2 e (hl.oc e he h1' hb) (Or.inr h1') hb
+    exact (h1.unexempt_clean hc).setFr_clean hc none
+
+/-- a process whose frame names a missing object (or any process without RESOURCE awaitable that is not in a hold) is
+    clean -/
+theorem GInv.clean_of_aw {w : World} (hp : GInv ex fr w) {p : Pid} (hx : ¬ ex p) (haw : guardAw w p = [])
+    (hnh : ∀ h, fr p ≠ some (.hold h)) : Clean w p := by
+  have hxp : ¬ ex (p + 1 - 1) := by simpa using hx
+  refine ⟨haw, ?_, ?_, ?_⟩
+  · intro g hq
+    have := (hp.gk g _ hq).2.2 hxp
+    simp only [Nat.add_sub_cancel] at this
+    rw [mem_awaits_guard, haw] at this; cases this
+  · intro e he hgr hb
+    obtain ⟨_, h2⟩ := hp.gr e he hgr
+    rw [hb] at h2
+    obtain ⟨g, h3, _⟩ := h2 hxp
+    simp only [Nat.add_sub_cancel] at h3
+    rw [mem_awaits_guard, haw] at h3; cases h3
+  · intro e he hea hec hb
+    obtain ⟨_, h2⟩ := hp.oth e he hea hec
+    rw [hb] at h2
+    have := h2 hxp
+    simp only [Nat.add_sub_cancel] at this
+    exact hnh _ this
+
+/-- the epilogue of `hold`: resumed with anything but SUCCESS the hold cancels its own timer; resumed with SUCCESS (which
+    only its own timer does, see `Quiet`) there is nothing left -/
+theorem GInv.resume_hold {w : World} (hp : GInv ex fr w) {p : Pid} {h : Nat} (hx : ¬ ex p) (hfr : fr p = some (.hold h))
+    (sig : Int) (hq : sig = sigSuccess → ∀ e ∈ w.ev.pending, e.item.a = aTime → e.item.c = 0 → e.item.b ≠ p + 1) :
+    GInv ex (setFrame fr p none) (resumeFrame (w.modProc p fun y => { y with blocked := none }) p (.hold h) sig).1 := by
+  have hxp : ¬ ex (p + 1 - 1) := by simpa using hx
+  have haw : guardAw w p = [] := by
+    rcases hp.ga p with h' | ⟨g, f, h1, h2, _⟩
+    · exact h'
+    · rw [hfr] at h1; cases h1; exact h2.elim
+  -- guard-wise the process is clean; only its own timer may be pending
+  have hnq : ∀ g, ¬ queued w g (p + 1) := by
+    intro g hq'
+    have := (hp.gk g _ hq').2.2 hxp
+    simp only [Nat.add_sub_cancel] at this
+    rw [mem_awaits_guard, haw] at this; cases this
+  have hng : ∀ e ∈ w.ev.pending, isGrant e → e.item.b ≠ p + 1 := by
+    intro e he hgr hb
+    obtain ⟨_, h2⟩ := hp.gr e he hgr
+    rw [hb] at h2
+    obtain ⟨g, h3, _⟩ := h2 hxp
+    simp only [Nat.add_sub_cancel] at h3
+    rw [mem_awaits_guard, haw] at h3; cases h3
+  have hkey : ∀ e ∈ w.ev.pending, e.item.a = aTime → e.item.c = 0 → e.item.b = p + 1 → e.key = h := by
+    intro e he hea hec hb
+    obtain ⟨_, h2⟩ := hp.oth e he hea hec
+    rw [hb] at h2
+    have := h2 hxp
+    simp only [Nat.add_sub_cancel] at this
+    rw [hfr] at this; cases this; rfl
+  have hA : GInv (exAdd ex p) fr (w.modProc p fun y => { y with blocked := none }) :=
+    (hp.exempt p).modBlocked p none (Or.inl (Or.inr rfl))
+  have hgaA : guardAw (w.modProc p fun y => { y with blocked := none }) p = [] := by
+    unfold guardAw; rw [modProc_proc]; split
+    · rename_i h'; rw [h'.1]; exact haw
+    · exact haw
+  have hevA : (w.modProc p fun y => { y with blocked := none }).ev = w.ev := rfl
+  have hqA : ∀ g' k, queued (w.modProc p fun y => { y with blocked := none }) g' k ↔ queued w g' k := fun _ _ => Iff.rfl
+  generalize (w.modProc p fun y => { y with blocked := none }) = wA at hA hgaA hevA hqA
+  simp only [resumeFrame]
+  by_cases hs : sig ≠ sigSuccess
+  · rw [if_pos hs]
+    -- timerCancel, then the TIME awaitable once more
+    have h1 : GInv (exAdd ex p) fr (removeAwait wA p (.time h)).1 := hA.removeAwait_other p _ rfl
+    have h2 := h1.evCancel_fst h
+    have hrel := evCancel_rel (removeAwait wA p (.time h)).1 h
+    have hev1 : (removeAwait wA p (.time h)).1.ev = w.ev := by rw [← hevA]; simp [removeAwait]
+    have hnot : h ∉ keys (evCancel (removeAwait wA p (.time h)).1 h).1.ev.pending :=
+      evCancel_not_pending _ h (by rw [hev1]; exact hp.ei)
+    have h3 : GInv (exAdd ex p) fr (removeAwait (timerCancel wA p h).1 p (.time h)).1 := by
+      simp only [Sim.timerCancel]; exact h2.removeAwait_other p _ rfl
+    have hc : Clean (removeAwait (timerCancel wA p h).1 p (.time h)).1 p := by
+      have hprocs : ∀ x, ((removeAwait (timerCancel wA p h).1 p (.time h)).1.proc x).awaits.filter isGuardA =
+          (wA.proc x).awaits.filter isGuardA := by
+        intro x
+        rw [removeAwait_fst_eq, modProc_proc]
+        have hT : (timerCancel wA p h).1.proc x = (removeAwait wA p (.time h)).1.proc x := by
+          simp only [Sim.timerCancel]; exact hrel.proc x
+        split
+        · rename_i hx'
+          rw [hx'.1] at hT ⊢
+          show ((removeFirst ((timerCancel wA p h).1.proc p).awaits (.time h)).1).filter isGuardA = _
+          rw [removeFirst_filter_ne _ _ _ rfl, hT, removeAwait_fst_eq, modProc_proc]
+          split
+          · show ((removeFirst (wA.proc p).awaits (.time h)).1).filter isGuardA = _
+            rw [removeFirst_filter_ne _ _ _ rfl]
+          · rfl
+        · rw [hT, removeAwait_fst_eq, modProc_proc]
+          split
+          · rename_i hx'
+            rw [hx'.1]
+            show ((removeFirst (wA.proc p).awaits (.time h)).1).filter isGuardA = _
+            rw [removeFirst_filter_ne _ _ _ rfl]
+          · rfl
+      have hguards : (removeAwait (timerCancel wA p h).1 p (.time h)).1.guards = wA.guards := by
+        have e1 : (removeAwait (timerCancel wA p h).1 p (.time h)).1.guards = (timerCancel wA p h).1.guards := by
+          simp [removeAwait]
+        have e2 : (timerCancel wA p h).1.guards = (removeAwait wA p (.time h)).1.guards := by
+          simp only [Sim.timerCancel]; exact hrel.guards
+        have e3 : (removeAwait wA p (.time h)).1.guards = wA.guards := by simp [removeAwait]
+        rw [e1, e2, e3]
+      have hevF : (removeAwait (timerCancel wA p h).1 p (.time h)).1.ev = (evCancel (removeAwait wA p (.time h)).1 h).1.ev := by
+        simp only [removeAwait, Sim.timerCancel, modProc_ev]
+      have hold : ∀ e ∈ (removeAwait (timerCancel wA p h).1 p (.time h)).1.ev.pending, e ∈ w.ev.pending ∨ e.item.a = aEvent := by
+        intro e he
+        rw [hevF] at he
+        rcases hrel.pend e he with h' | ⟨_, _, _, _, _, _, heq⟩
+        · rw [hev1] at h'; exact Or.inl h'
+        · right; rw [heq]; rfl
+      refine ⟨?_, ?_, ?_, ?_⟩
+      · unfold guardAw; rw [hprocs]; exact hgaA
+      · intro g hq'
+        exact hnq g ((hqA g _).1 ((queued_congr hguards g _).1 hq'))
+      · intro e he hgr hb
+        rcases hold e he with h' | h'
+        · exact hng e h' hgr hb
+        · rcases hgr with ⟨h1', _⟩ | h1' <;> rw [h'] at h1' <;> exact absurd h1' (by decide)
+      · intro e he hea hec hb
+        rcases hold e he with h' | h'
+        · have hk := hkey e h' hea hec hb
+          rw [hevF] at he
+          exact hnot (Event.mem_keys.2 ⟨e, he, hk⟩)
+        · rw [hea] at h'; exact absurd h' (by decide)
+    exact (h3.unexempt_clean hc).setFr_clean hc none
+  · rw [if_neg hs]
+    have hs' : sig = sigSuccess := Classical.byContradiction hs
+    have hc : Clean wA p := ⟨hgaA, fun g hq' => hnq g ((hqA g _).1 hq'), by rw [hevA]; exact hng, by rw [hevA]; exact hq hs'⟩
+    exact (hA.unexempt_clean hc).setFr_clean hc none
 
 end CimbaModel.Sim.S3
